@@ -1,0 +1,21 @@
+//! Verification hook, compiled only with `--cfg uazu_stakker_verif`.
+//!
+//! The three `sync` modules pick this up as `std` (one guarded `use` item
+//! each), so that their unchanged code runs against `shuttle`'s
+//! `Arc`/`Mutex`/`Condvar`/`AtomicUsize`/`thread::spawn`, which makes every
+//! atomic and lock operation a scheduling point chosen by the test harness.
+//! With the guard off none of this is compiled and the crate has no extra
+//! dependency.
+
+pub use ::std::{collections, convert, mem, ops, panic};
+
+pub mod sync {
+    pub use shuttle::sync::{Arc, Condvar, Mutex};
+    pub mod atomic {
+        pub use shuttle::sync::atomic::{AtomicUsize, Ordering};
+    }
+}
+
+pub mod thread {
+    pub use shuttle::thread::spawn;
+}
